@@ -12,6 +12,6 @@ echo "--- with change: whole suite"
 cargo test --workspace --no-fail-fast --offline 2>&1 | grep -E "^test .*FAILED|^test result|^error" | sort | uniq -c | head -20
 echo "--- without change: demo only"
 git apply -R $OUT/patch.diff
-{ cargo test --workspace --no-fail-fast --offline seeded_demo 2>&1; [ -f io/tests/seeded_demo.rs ] && cargo test -p flatty-io --test seeded_demo --offline 2>&1; } | grep -E "^test .*(FAILED|ok)|^error" | sort | uniq -c | head -20
+{ cargo test --workspace --no-fail-fast --offline seeded_demo 2>&1; [ -f io/tests/seeded_demo.rs ] && cargo test -p flatty-io --test seeded_demo --offline 2>&1; [ -f portable/tests/seeded_demo.rs ] && cargo test -p flatty-portable --test seeded_demo --offline 2>&1; } | grep -E "^test .*(FAILED|ok)|^error" | sort | uniq -c | head -20
 git apply $OUT/patch.diff
 git status --short | head
